@@ -209,5 +209,21 @@ def firstMin : List (List Attr × Nat) → Option (List Attr × Nat)
   | [] => none
   | o :: os => some (os.foldl (fun b x => if x.2 < b.2 then x else b) o)
 
+/-! ## `maximal_cliques()`: `list(nx.dfs_preorder_nodes(self.tree))` -/
+
+/-- the contract of a depth-first preorder of a connected tree: every node is listed exactly once and
+every node after the first has a tree neighbour earlier in the list (its DFS parent) -/
+def isPreorder (t : Tree) (l : List Clique) : Bool :=
+  nodup l && l.length == t.nodes.length && t.nodes.all (fun n => l.contains n) &&
+  (List.range l.length).all (fun i => i == 0 ||
+    (List.range i).any (fun j => t.adj (l.getD j []) (l.getD i [])))
+
+/-- the running-intersection *order* property `mle` relies on: each clique meets the union of the
+earlier ones inside a single earlier clique -/
+def ripOrder (l : List Clique) : Bool :=
+  (List.range l.length).all (fun i => i == 0 ||
+    (List.range i).any (fun j =>
+      (l.getD i []).all (fun a => !((List.range i).any (fun k => (l.getD k []).contains a)) || (l.getD j []).contains a)))
+
 end JT
 end PGM
